@@ -154,6 +154,9 @@ def check_seq(prop, tier, seed):
         three = seq_gen(work, dict(SEQ_CONSTS, Keys={1, 2, 3}, MaxOps=5, **G), seed + 2, n // 4, name="gen3")
         engines = "memkv,badger,tikv,metrics"
         flags = ["-seed", str(seed), "-frac", "0.02" if quick else "0.1", "-finalfrac", "0.25" if quick else "1.0"]
+        if prop == "C03":
+            # "... or fails": point and limited reads repeated under one transient error of the engine's iterator
+            flags = flags + ["-readfaults"]
         alltraces, allagree = [], []
         # C12: long histories of one key (create, delete, re-create, update ...) with a compaction in the middle and
         # every read of the final sweep: engines must also agree on what a compaction leaves behind
